@@ -95,10 +95,10 @@ func Int(i int64) *Node {
 	}
 	return &Node{K: "int", I: i}
 }
-func Flt(text string) *Node       { return &Node{K: "flt", S: text} }
-func Str(s string, q int) *Node   { return &Node{K: "str", S: s, Q: q} }
-func Var(name string) *Node       { return &Node{K: "var", S: name} }
-func None() *Node                 { return &Node{K: "none"} }
+func Flt(text string) *Node           { return &Node{K: "flt", S: text} }
+func Str(s string, q int) *Node       { return &Node{K: "str", S: s, Q: q} }
+func Var(name string) *Node           { return &Node{K: "var", S: name} }
+func None() *Node                     { return &Node{K: "none"} }
 func Bin(op string, l, r *Node) *Node { return &Node{K: "bin", S: op, Kids: []*Node{l, r}} }
 func Set(name string, e *Node) *Node  { return &Node{K: "set", S: name, Kids: []*Node{e}} }
 func Call(fn *Node, args ...*Node) *Node {
